@@ -4,6 +4,7 @@ use std::rc::Rc;
 use rustc_hash::FxHashMap;
 
 use crate::checks::type_checker::check_types;
+use crate::diagnostics::Severity;
 use crate::env::Env;
 use crate::eval::load_toplevel_items;
 use crate::garden_type::Type;
@@ -61,7 +62,39 @@ pub(crate) fn add_type_annotation(
     result.push_str(&candidate.annotation);
     result.push_str(&src[candidate.insert_offset..]);
 
+    // A hint makes the type checker stricter about the values that
+    // reach it, e.g. an unannotated parameter that is returned from a
+    // function we're giving a return type. Don't offer a hint that
+    // the checker would then reject.
+    let num_errors_before = summary
+        .diagnostics
+        .iter()
+        .filter(|d| matches!(d.severity, Severity::Error))
+        .count();
+    if num_type_errors(&result, path) > num_errors_before {
+        return Err("The inferred type annotation would not type check here.".to_owned());
+    }
+
     Ok(result)
+}
+
+/// The number of errors that the type checker reports for `src`.
+fn num_type_errors(src: &str, path: &Path) -> usize {
+    let mut id_gen = IdGenerator::default();
+    let (vfs, vfs_path) = Vfs::singleton(path.to_owned(), src.to_owned());
+
+    let (items, _errors) = parse_toplevel_items(&vfs_path, src, &mut id_gen);
+
+    let mut env = Env::new(id_gen, vfs);
+    let ns = env.get_or_create_namespace(path);
+    load_toplevel_items(&items, &mut env, Rc::clone(&ns));
+    let summary = check_types(&vfs_path, &items, &env, ns);
+
+    summary
+        .diagnostics
+        .iter()
+        .filter(|d| matches!(d.severity, Severity::Error))
+        .count()
 }
 
 /// A place where a type annotation could be inserted.
